@@ -11,6 +11,8 @@ import (
 	"math/rand"
 	"strconv"
 	"strings"
+
+	"grol.io/grol/ast"
 )
 
 // ---------------------------------------------------------------------- AST constructors
@@ -59,7 +61,7 @@ func nFn(name string, ps []string, variadic, lambda bool, body []any) J {
 		pl = append(pl, p)
 	}
 	n := J{"k": "fn", "name": name, "ps": pl, "variadic": variadic, "lambda": lambda, "body": body}
-	n["ck"] = latin1(fnKey(n))
+	n["ck"] = latin1(realFnKey(n))
 	return n
 }
 func jl(a []J) []any {
@@ -68,6 +70,20 @@ func jl(a []J) []any {
 		r = append(r, x)
 	}
 	return r
+}
+
+// realFnKey: the function's code identity as the implementation computes it (object.SetCacheKey on the
+// parsed literal): it is also the printed form of an anonymous function value, which belongs to the
+// formatter (C02/C03), not to the evaluation semantics. Falls back to fnKey if the text does not parse alone.
+func realFnKey(n J) string {
+	src := renderNode(n, 0, styleNormal)
+	prog, errs := parseFile(src)
+	if len(errs) == 0 && len(prog.Statements) == 1 {
+		if fl, ok := prog.Statements[0].(*ast.FunctionLiteral); ok {
+			return funcCacheKey(fl)
+		}
+	}
+	return fnKey(n)
 }
 
 // fnKey: code identity of a function literal (named functions and lambdas differ; the name is not part).
